@@ -1,10 +1,14 @@
-"""C16: async readers / writers == sync counterparts. One stage; the binary covers readers (valid, re-blocked, malformed
-inputs), BGZF seek histories, region queries and writers under scripted poll schedules, two tokio runtime flavours,
-BGZF worker counts 1..8 and H1 delay plans."""
+"""C16: async readers / writers == sync counterparts. The c16 binary covers readers (valid, re-blocked, truncated and
+one-bit-corrupt inputs; read_* calls and Stream APIs), BGZF seek histories, region queries and writers (corpus histories +
+seeded BGZF write/flush histories) under scripted poll schedules (PollRead / PollWrite), two tokio runtime flavours, BGZF
+worker counts 1..8 and H1 delay plans inside the spawn_blocking inflate / deflate closures. The thorough tier adds a
+ThreadSanitizer stage over a reduced in-process workload (all case kinds, every async module once)."""
 
 PROP = {
     "level": "exploration",
     "stages": [
-        {"name": "main", "timeout": 1500},
+        {"name": "main", "timeout": 3000},
+        {"name": "tsan", "variant": "tsan", "args": ["inproc=1", "tiny=1", "cfgs=6", "seek_histories=3", "bgzf_histories=8"],
+         "tiers": ("thorough",), "optional": True, "timeout": 3600},
     ],
 }
